@@ -40,6 +40,7 @@ from .onion import FilesystemAuthenticatedOnionService
 from .onion import EphemeralAuthenticatedOnionService
 from .onion import AuthStealth  # , AuthBasic
 from .torconfig import _endpoint_from_socksport_line
+from .torcontrolprotocol import DEFAULT_VALUE
 from .util import SingleObserver, _Version
 
 
@@ -982,9 +983,16 @@ def _create_socks_endpoint(reactor, control_protocol, socks_config=None):
             socks_ports = [socks_ports]
         # see TorConfig for more fun-times regarding *PortLines, including
         # the __*Port things...
-        if socks_ports == ['DEFAULT']:
+        if socks_ports == [DEFAULT_VALUE]:
             default = yield control_protocol.get_conf_single('__SocksPort')
-            socks_ports = [default]
+            # no __SocksPort either: DEFAULT_VALUE; one line: a str;
+            # several lines: a list
+            if default == DEFAULT_VALUE:
+                socks_ports = []
+            elif isinstance(default, list):
+                socks_ports = default
+            else:
+                socks_ports = [default]
     else:
         # return from get_conf was an empty dict; we want a list
         socks_ports = []
